@@ -346,3 +346,71 @@ Proof. vm_compute. reflexivity. Qed.
 Example C15_example_checkers_exact :
   inverse_ok 0 [[1 # 2; 0]; [0; 1 # 4]] [[2; 0]; [0; 4]] && eig_ok 0 [[2; 0]; [0; 1]] [2; 1] [[1; 0]; [0; 1]] [1; 1] = true.
 Proof. vm_compute. reflexivity. Qed.
+
+(* ------------------------------------------------------------------ round 6: completeness of the checked elimination
+   (C13/GJProofs.v, same LinAlg definitions, imported read-only) instantiated on the systems of C15 *)
+(* every full-rank computechi2 system (full column rank on the points with non-zero sqivar) HAS coefficients in the model,
+   and they minimise the weighted chi-square over all coefficient vectors *)
+Theorem C15_chi2_acoeff_total : forall b sq A,
+  rows_len (ncols A) A -> full_rank (ncols A) (cc_data A sq b) ->
+  exists a, wls_solve (ncols A) (cc_data A sq b) = Some a /\ length a = ncols A /\
+            forall z, length z = ncols A -> chi2 (cc_data A sq b) a <= chi2 (cc_data A sq b) z.
+Proof. exact chi2_acoeff_total. Qed.
+Print Assumptions C15_chi2_acoeff_total.
+(* PARTIAL.  Full statement wanted: full rank -> computechi2_ref b sq A <> None.  Proved: on a full-rank system the model can
+   decline only through the covariance branch (completeness of `inverse_checked`, the elimination with n right-hand sides,
+   is not proved; its soundness is C15_covar_is_inverse) *)
+Theorem C15_computechi2_ref_none_partial : forall b sq A,
+  rows_len (ncols A) A -> full_rank (ncols A) (cc_data A sq b) ->
+  computechi2_ref b sq A = None -> inverse_checked (mred (normal_mat (ncols A) (cc_data A sq b))) = None.
+Proof. exact computechi2_ref_none_partial. Qed.
+Print Assumptions C15_computechi2_ref_none_partial.
+(* HMF: when every row problem has full rank the coefficient update exists; a full-rank column problem has its
+   component update (no smoothing) *)
+Theorem C15_astep_ref_total : forall s w g,
+  Forall (fun wi => Forall (fun v => 0 <= v) wi) w ->
+  (forall si wi, In si s -> In wi w -> full_rank (length g) (hmf_row_data g wi si)) ->
+  exists a', astep_ref s w g = Some a'.
+Proof. exact astep_ref_total. Qed.
+Print Assumptions C15_astep_ref_total.
+Theorem C15_gstep_col_ref_total : forall s w a g K M j,
+  K = ncols a -> rows_len (ncols a) a -> Forall (fun v => 0 <= v) (col j w) ->
+  full_rank K (hmf_col_data a (col j w) (col j s)) ->
+  exists x, gstep_col_ref s w a g None K M j = Some x.
+Proof. exact gstep_col_ref_total. Qed.
+Print Assumptions C15_gstep_col_ref_total.
+Example C15_example_full_rank : full_rank 2 (cc_data [[1; 0]; [1; 1]; [1; 2]] [1; 1; 0] [5; 7; 9]).
+Proof. exact chi2_full_rank_example. Qed.
+(* the certified clauses of one loop pass evaluated alone (case CHmfIterS, used for runs too large to re-compute exactly) *)
+Example C15_example_iter_spec_only :
+  run_case (CHmfIterS false [[1; 2]; [2; 4]] [[1; 1]; [1; 1]] None ([[1]; [1]], [[1; 1]])
+              [([[3 # 2]; [3]], [[1; 1]]); ([[3 # 2]; [3]], [[2 # 3; 4 # 3]]); ([[3 # 2]; [3]], [[2 # 3; 4 # 3]])]) = 2%Z
+  /\ diag_case (CHmfIterS false [[1; 2]; [2; 4]] [[1; 1]; [1; 1]] None ([[1]; [1]], [[1; 1]])
+              [([[3 # 2]; [3]], [[1; 1]]); ([[3 # 2]; [3]], [[2 # 3; 4 # 3]]); ([[3 # 2]; [3]], [[2 # 3; 4 # 3]])]) = [true; false; true].
+Proof. vm_compute. split; reflexivity. Qed.
+
+(* ------------------------------------------------------------------ round 6: completeness for pcomp's SCALED columns *)
+(* n vectors v_k and n vectors u_k of Q^n with u_j . v_k = delta_jk:  x = sum_k (u_k . x) v_k  for every x *)
+Theorem C15_biorthogonal_complete : forall n us vs,
+  length vs = n -> length us = n -> vlen n vs -> vlen n us -> bi_identity us vs ->
+  forall x, length x = n -> veq (lincomb n (map (fun u => dot u x) us) vs) x.
+Proof. exact biorthogonal_complete. Qed.
+Print Assumptions C15_biorthogonal_complete.
+(* n pairwise orthogonal vectors of Q^n with non-zero squared lengths l_k (pcomp's components: eigenvectors times
+   sqrt(eigenvalue)) are complete: x = sum_k ((c_k . x) / l_k) c_k -- no square root needed *)
+Theorem C15_scaled_columns_complete : forall n vs ls,
+  length vs = n -> length ls = n -> vlen n vs -> Forall (fun l => ~ l == 0) ls -> gram_diag vs ls ->
+  forall x, length x = n -> veq (lincomb n (map (fun u => dot u x) (dual ls vs)) vs) x.
+Proof. exact scaled_columns_complete. Qed.
+Print Assumptions C15_scaled_columns_complete.
+(* the property's "components whose outer product reproduces the correlation (or covariance) matrix": what eig_ok tests
+   (eigen-equation, Gram matrix = diag(l)) implies C x = sum_k (c_k . x) c_k for every x when no eigenvalue vanishes *)
+Theorem C15_scaled_outer_product : forall n C vs ls,
+  length C = n -> length vs = n -> length ls = n -> vlen n vs -> Forall (fun l => ~ l == 0) ls ->
+  Forall2 (fun v l => veq (mat_vec C v) (vscale l v)) vs ls -> gram_diag vs ls ->
+  forall x, length x = n -> veq (mat_vec C x) (lincomb n (map (fun v => dot v x) vs) vs).
+Proof. exact scaled_outer_product. Qed.
+Print Assumptions C15_scaled_outer_product.
+Example C15_example_scaled_outer_product :
+  gram_diag [[2; 0]; [0; 1]] [4; 1] /\ Forall2 (fun v l => veq (mat_vec [[4; 0]; [0; 1]] v) (vscale l v)) [[2; 0]; [0; 1]] [4; 1].
+Proof. exact scaled_outer_product_example. Qed.
